@@ -107,8 +107,8 @@ def inflate_vs_execute(ctx, T, cases):
                           replay=dict(kind='c06-inf', case=c))
 
 
-def c06_locality_key(case):
-    return oc.locality_key(case, None)
+def c06_locality_key(case, diffs=None):
+    return oc.locality_key(case, diffs)
 
 
 def run_kind(ctx, T, rng, kind, cases):
